@@ -256,6 +256,26 @@ def run_sched(ctx, prop, modules, theorems):
         ctx.violation("correspondence-coverage", "", f"oracle closure budget exceeded on {budget}/{len(lines)} traces (> 8 %)", no_input=True)
     if lines and skipped > max(3, 0.15 * len(lines)):
         ctx.violation("correspondence-coverage", "", f"{skipped}/{len(lines)} traces wedged by a known deadlock and not compared (> 15 %)", no_input=True)
+    # ---- bounded layer, trace level: along a script on which the REAL scheduler wedged on a full channel / a mutex cycle /
+    # an unconsumed unloadedCh, can the bounded model (Model/SchedChan.lean, parameters = the tree's extracted Cfg) reach, with
+    # the same observations, a state with goroutines parked inside a region and nothing enabled?  (`sched-wedge`)
+    wkinds = ("c02-deadlock-queue", "c02-deadlock-lockorder", "c02-deadlock-unconsumed")
+    wscripts = {f["case"].strip() for f in failures if f["kind"] in wkinds}
+    wl = [l for l in lines if script_of(l) in wscripts]
+    if wl and not ctx.replay:
+        tv = ctx.coverage.get("tree_variant", {})
+        eo, idr = ("1" if tv.get("expiredOrderFixed") == "true" else "0"), ("1" if tv.get("idleDrains") == "true" else "0")
+        win, wout = os.path.join(outdir, "wedge_in.txt"), os.path.join(outdir, "wedge_out.txt")
+        with open(win, "w") as f:
+            for l in wl:
+                f.write(l.replace("sched-trace ", f"sched-wedge {vname} {eo} {idr} ", 1) + "\n")
+        ctx.oracle(win, wout)
+        res = [x.split()[0] if x.strip() else "?" for x in open(wout)]
+        cnt = {k: res.count(k) for k in sorted(set(res))}
+        ctx.coverage["bounded_layer_traces"] = dict(cnt, real_wedged_scripts=len(wl))
+        # informational except: the layer must reproduce at least one of the real wedges it claims to model
+        if cnt.get("wedge", 0) == 0 and len(wl) >= 3 and (vname, eo, idr) == ("good", "1", "1"):
+            ctx.violation("correspondence-coverage", "", f"bounded model reproduces none of {len(wl)} real wedged traces: {cnt}", no_input=True)
     # ---- directed search: scripts on which the real scheduler left the model's behaviours are re-run with a
     # drain-and-probe suffix (VERIF_EXTEND) so that the end-of-trace monitors get a chance to turn the divergence
     # into a concrete property failure (e.g. a blocked completed loop only shows on the NEXT request)
@@ -285,11 +305,14 @@ def run_sched(ctx, prop, modules, theorems):
     if prop == "C11" and not ctx.replay:
         ctx.oracle_name = "C16"
         ctx.lake_build(["oracle-c16"])
-        env16 = {"VERIF_C16_VARIANT": os.environ.get("VERIF_C16_VARIANT", ""), "VERIF_CORPUS": os.path.join(core.ROOT, "corpus", "C16")}
+        env16 = {"VERIF_C16_VARIANT": "", "VERIF_CORPUS": os.path.join(core.ROOT, "corpus", "C16")}
         for pkg, ov, test, n, label in (
                 ("./llm/", {"llm/zz_verif_c16_test.go": "llm/zz_verif_c16_test.go"}, "^TestVerifC16$", ctx.scale(2000, 30000), "L1-estimate"),
                 ("./server/", {"server/zz_verif_c16_test.go": "server/zz_verif_c16_test.go"}, "^TestVerifC16Sched$", ctx.scale(1000, 15000), "L1-freespace"),
-                ("./server/", {"server/zz_verif_c16_test.go": "server/zz_verif_c16_test.go"}, "^TestVerifC16Pick$", ctx.scale(800, 10000), "L1-pick")):
+                ("./server/", {"server/zz_verif_c16_test.go": "server/zz_verif_c16_test.go"}, "^TestVerifC16Pick$", ctx.scale(800, 10000), "L1-pick"),
+                # the processPending glue around the fit answer (real processPending under synctest, loadFn recorded) and the CPU branch
+                ("./server/", {"server/zz_verif_c16_test.go": "server/zz_verif_c16_test.go"}, "^TestVerifC16Load$", ctx.scale(600, 8000), "L1-load"),
+                ("./server/", {"server/zz_verif_c16_test.go": "server/zz_verif_c16_test.go"}, "^TestVerifC16Cpu$", ctx.scale(300, 4000), "L1-cpu")):
             rc16, out16, dir16 = ctx.go_test(pkg, ov, test, env=dict(env16, VERIF_N=n), timeout=1200)
             if rc16 != 0:
                 ctx.violation("driver-failed", test, out16[-1500:], no_input=True)
